@@ -2,20 +2,16 @@
 // (src/text/abstraction.rs).
 //
 // What is in this file
-//   * the trait `DiffableStr` reduced to `len` and `slice` (all tokenizer methods, `as_str`, `to_string_lossy`,
-//     `ends_with_newline`, `as_bytes`, `is_empty` are dropped with `only=`: nothing here calls them and their
-//     implementations are outside Verus' subset), extended with a ghost byte view
-//     `bytes(&self) -> Seq<u8>` and the documented meaning of the two methods as their contract:
+//   * the trait `DiffableStr` itself is declared in diffablestr.rs (shared with units tok / txt; included before this
+//     file): a ghost byte view `bytes(&self) -> Seq<u8>` and the documented meaning of `len` / `slice` as their contract:
 //         len()      ensures  res == self.bytes().len()
 //         slice(rng) requires rng.start <= rng.end <= self.bytes().len()
 //                    ensures  res.bytes() == self.bytes().subrange(rng.start, rng.end)
-//     ASSUMPTION (H-DS): the `impl DiffableStr for str` / `for [u8]` blocks of /repo are NOT extracted, so that
-//     they satisfy this contract (with bytes = the UTF-8 bytes / the bytes) is assumed, not checked.  For `str`
-//     `slice` additionally panics when `rng` does not fall on char boundaries; token boundaries produced by the
-//     tokenizers are char boundaries (part of the tokenizer property C06, not checked here).
-//     The trait sits OUTSIDE the `verus!` block (attribute syntax `#[verus_verify]` / `#[verus_spec(..)]`): the
-//     declarations `fn len(&self) -> usize;` carry their `;` on the signature line, so no ghost line can be
-//     spliced between signature and `;`; the attribute form goes on a ghost line *above* the code line.
+//     (H-DS) that the `impl DiffableStr for str` / `for [u8]` blocks of /repo satisfy this contract (with bytes = the
+//     UTF-8 bytes / the bytes) is CHECKED in unit tok for `len` (both) and `slice` of `[u8]`; `slice` of `str` keeps an
+//     assumed contract there: `&self[rng]` additionally panics when `rng` does not fall on char boundaries; token
+//     boundaries produced by the tokenizers are char boundaries (tokenizer property C06: `tok_is`), which the abstract
+//     byte view does not express.
 //   * `SliceRemapper::new`: real body kept, `external_body` (iterator chain `.iter().scan(..).collect()`),
 //     ASSUMED contract (H-NEW): `indexes` are the cumulative ranges of the token lengths.
 //   * `SliceRemapper::slice`, `TextDiffRemapper::{new, slice_old, slice_new}`: real bodies, PROVED.
@@ -41,10 +37,7 @@ verus! {
 // ---------------------------------------------------------------------------------------------
 // vocabulary: token byte views, concatenation, cumulative ranges
 // ---------------------------------------------------------------------------------------------
-/// the byte views of a token list
-pub open spec fn toks<T: DiffableStr + ?Sized>(slices: Seq<&T>) -> Seq<Seq<u8>> {
-    Seq::new(slices.len(), |i: int| slices[i].bytes())
-}
+// (`toks`, the byte views of a token list, is defined with the trait in diffablestr.rs)
 
 /// total length of the first i tokens
 pub open spec fn lsum(t: Seq<Seq<u8>>, i: int) -> int
@@ -227,38 +220,8 @@ pub proof fn lemma_slice_reqs_tags(op: DiffOp, k: int)
         else { rs.len() == 2 && c.tag == rs[1].tag && k - (rs[0].range.end - rs[0].range.start) < rs[1].range.end - rs[1].range.start } }),
 {}
 
-} // verus!
+// (the trait `DiffableStr` with its ghost byte view and the contract of `len` / `slice`: diffablestr.rs)
 
-/*@*/ #[verus_verify]
-//@@ item src/text/abstraction.rs :: ^pub trait DiffableStr\b only=fn\s+(len|slice)\(
-pub trait DiffableStr: Hash + PartialEq + PartialOrd + Ord + Eq + ToOwned {
-    /*@*/ /// ghost: the ABSTRACT byte view of the string (str: its UTF-8 bytes, [u8]: the bytes)
-    /*@*/ #[verus_spec] #[verifier::spec]
-    /*@*/ fn bytes(&self) -> Seq<u8>;
-
-
-
-
-
-
-
-
-
-    /// The length of the string.
-    /*@*/ #[verus_spec(res => ensures res == self.bytes().len())]
-    fn len(&self) -> usize;
-
-    /// Slices the string.
-    /*@*/ #[verus_spec(res =>
-    /*@*/     requires rng.start <= rng.end <= self.bytes().len(),
-    /*@*/     ensures res.bytes() == self.bytes().subrange(rng.start as int, rng.end as int))]
-    fn slice(&self, rng: Range<usize>) -> &Self;
-
-
-}
-//@@ end
-
-verus! {
 
 //@@ item src/utils.rs :: ^struct SliceRemapper
 struct SliceRemapper<'x, T: ?Sized> {
